@@ -32,12 +32,9 @@ def storyIds (d : Xml) : List Key := match rcOf d with | some rc => keysOf "stor
 def WfKids (tag : String) (cs : List Xml) : Bool :=
   cs.all (fun c => c.tag != tag || (c.find (tag ++ "ID")).isSome)
 
-/-- a running order: has a `roCreate`, every story has a `storyID`, every item an `itemID` -/
-def WfRO (d : Xml) : Bool :=
-  match rcOf d with
-  | none => false
-  | some rc => WfKids "story" rc.kids &&
-      (rc.kids.all (fun s => s.tag != "story" || WfKids "item" s.kids))
+/-- a running order: has a `roCreate` (nothing is assumed of its stories and items: `find_child`
+    skips a child without its ID tag, and listing the stories does not read the IDs) -/
+def WfRO (d : Xml) : Bool := (rcOf d).isSome
 
 /-- timing metadata, where present, is numeric / parseable (so that listing stories cannot fail) -/
 def TimingOk (d : Xml) : Bool :=
